@@ -70,7 +70,10 @@ RULE = (
     "rows (quick; <=8 thorough) on square shapes and total<=3 (<=5) on every wide and tall "
     "shape up to 3x3 (tall ones after a child-process canary) plus Hypothesis samples up "
     "to total 20, complex Gaussian matrix from a seed; non-trivial = total>=2 and a "
-    "multiplicity>1. Isolated rules: Hypothesis-drawn (r, phi, cutoff) / (unitary seed, d, "
+    "multiplicity>1. Gaussian/JAX: 2-3 modes, Squeezing(r, phi!=0) on every mode (r from "
+    "disjoint bands), Displacement on >=1 mode, 1-2 Beamsplitter(theta, phi!=0), jax.grad "
+    "of get_particle_detection_probability(n), |n| in {1,2}, w.r.t. all parameters (class "
+    "gauss_eigvec_region = displaced+squeezed+complex angles+2 photons). Isolated rules: Hypothesis-drawn (r, phi, cutoff) / (unitary seed, d, "
     "cutoff) with random complex upstream."
 )
 ASSUMPTIONS = [
@@ -83,7 +86,8 @@ ASSUMPTIONS = [
     "float64 / complex128 only (tf.float64 variables, jax x64)",
     "lib/oracles.permanent_ref (exact integer arithmetic) is the permanent oracle",
 ]
-FLOORS = {}
+# only judged on quiet full runs (the permanent enumeration dominates the evaluations)
+FLOORS = {"gauss_eigvec_region": 0.003}
 
 RTOL, ATOL = 1e-5, 1e-7
 # Debug / sensitivity aid: C10_PARTS=rule_matrices,tf_eager restricts a run to the named
@@ -549,6 +553,166 @@ def circuit_case(draw, fw, modes, max_gates=6, max_d=3, max_cutoff=7, max_points
     npts = draw(st.integers(1, max_points))
     points = [draw(st.lists(param_value(), min_size=k, max_size=k)) for _ in range(npts)]
     return {"fw": fw, "mode": mode, "circ": circ, "points": points}
+
+
+# --------------------------------------------------------------------------------------
+# Gaussian simulator under JAX: detection probabilities go through the loop hafnian and the
+# custom VJP of `eig` (piquasso/_math/jax/utils.py).  The eigen*vectors* only carry
+# cotangent when the state is displaced AND squeezed, and the rule's conjugations only
+# matter when the eigenvalues are complex (non-zero squeezing angle / beamsplitter phase):
+# that region is built by construction here.
+
+EPS_EIG = 1e-6  # Lorentzian broadening built into the pristine rule (utils.EPS_EIG)
+# squeezing amplitudes are drawn from disjoint bands, so that the moduli tanh(r_i) of the
+# eigenvalues of the loop-hafnian matrix stay apart (|l_a - l_b| >= ||l_a| - |l_b||)
+R_BANDS = [(0.25, 0.40), (0.50, 0.65), (0.75, 0.90)]
+
+
+def _gauss_theta(case):
+    th = []
+    for r, phi in case["sq"]:
+        th += [r, phi]
+    for _m, a, phi in case["disp"]:
+        th += [a, phi]
+    for _m1, _m2, t, phi in case["bs"]:
+        th += [t, phi]
+    return [float(x) for x in th]
+
+
+def _gauss_slots(case):
+    sl = []
+    for i, _ in enumerate(case["sq"]):
+        sl += [("Squeezing", "r", f"mode{i}"), ("Squeezing", "phi", f"mode{i}")]
+    for m, _a, _p in case["disp"]:
+        sl += [("Displacement", "r", f"mode{m}"), ("Displacement", "phi", f"mode{m}")]
+    for m1, m2, _t, _p in case["bs"]:
+        sl += [("Beamsplitter", "theta", f"modes{m1}{m2}"),
+               ("Beamsplitter", "phi", f"modes{m1}{m2}")]
+    return sl
+
+
+def _gauss_function(case, connector):
+    d, occ = case["d"], tuple(case["occ"])
+
+    def f(th):
+        k = 0
+        sim = pq.GaussianSimulator(d=d, connector=connector)
+        with pq.Program() as program:
+            pq.Q() | pq.Vacuum()
+            for i in range(len(case["sq"])):
+                pq.Q(i) | pq.Squeezing(r=th[k], phi=th[k + 1])
+                k += 2
+            for m, _a, _p in case["disp"]:
+                pq.Q(m) | pq.Displacement(r=th[k], phi=th[k + 1])
+                k += 2
+            for m1, m2, _t, _p in case["bs"]:
+                pq.Q(m1, m2) | pq.Beamsplitter(theta=th[k], phi=th[k + 1])
+                k += 2
+        state = sim.execute(program).state
+        return state.get_particle_detection_probability(occ)
+
+    return f
+
+
+_GAUSS_NP = None
+
+
+def prop_gaussian(case, ctx):
+    global _GAUSS_NP
+    jax = _jax()
+    jnp = jax.numpy
+    if _GAUSS_NP is None:
+        _GAUSS_NP = pq.NumpyConnector()
+    theta = _gauss_theta(case)
+    sl = _gauss_slots(case)
+    displaced = any(abs(a) > 0.05 for _m, a, _p in case["disp"])
+    squeezed = all(abs(r) > 0.05 for r, _p in case["sq"])
+    complex_ev = any(abs(p) > 0.1 for _r, p in case["sq"]) or \
+        any(abs(p) > 0.1 for *_x, p in case["bs"])
+    region = displaced and squeezed and complex_ev and sum(case["occ"]) >= 2
+    fnp = _gauss_function(case, _GAUSS_NP)
+    fn = lambda x: np.array([float(fnp([float(t) for t in x]))])  # noqa: E731
+    J_fd = K.richardson(fn, theta, 1e-4)[0]
+    p0 = float(fn(np.asarray(theta))[0])
+    ctx.case(case, region and float(np.max(np.abs(J_fd))) > 1e-6,
+             ["jax:gaussian", "gauss_photons_%d" % sum(case["occ"])]
+             + (["gauss_eigvec_region"] if region else [])
+             + (["gauss_repeated_occupation"] if max(case["occ"]) > 1 else []))
+    fj = _gauss_function(case, pq.JaxConnector())
+    x = jnp.asarray(np.asarray(theta))
+    try:
+        val = float(fj(x))
+        J = np.asarray(jax.grad(fj)(x), dtype=float)
+    except Exception as e:
+        raise Violation(f"C10:jax:gaussian:raises:{type(e).__name__}",
+                        f"{case}: NumPy evaluates the detection probability but the JAX "
+                        f"connector raised {type(e).__name__}: {str(e)[:300]}")
+    if abs(val - p0) > 1e-9 * (1 + abs(p0)):
+        raise Violation("C10:jax:gaussian:forward",
+                        f"{case}: detection probability {val!r} (JAX) vs {p0!r} (NumPy)")
+    # tolerance: the finite-difference tolerance plus the error of the pristine rule's own
+    # broadening 1/D -> conj(D)/(|D|^2 + eps): relative eps/|D|^2 on the eigenvector
+    # terms, D >= the smallest gap between the moduli {0, tanh r_i} of the eigenvalues
+    t = sorted([0.0] + [math.tanh(abs(r)) for r, _p in case["sq"]])
+    gap = min(b - a for a, b in zip(t, t[1:]))
+    scale = max(float(np.max(np.abs(J_fd))), abs(p0))
+    tol = ATOL + RTOL * np.abs(J_fd) + (4.0 * EPS_EIG / max(gap, 1e-3) ** 2 * scale
+                                        if gap > 0 else np.inf)
+    err = np.where(np.isfinite(J), np.abs(J - J_fd), np.inf)
+    bad = err > tol
+    if not bad.any():
+        return
+    J_fd2 = K.richardson(fn, theta, 2e-4)[0]
+    if np.any(np.abs(J_fd2 - J_fd) > 0.1 * tol):
+        ctx.count("fd_unreliable")
+        return
+    j = int(np.argmax(np.where(bad, err / tol, 0)))
+    gname, pname, where = sl[j]
+    raise Violation(
+        f"C10:jax:gaussian:{gname}:{pname}",
+        f"{case}: d P(n={case['occ']}) / d {gname}.{pname} [{where}] = {J[j]!r} from "
+        f"jax.grad (GaussianSimulator, JaxConnector), finite differences of the NumPy "
+        f"simulation give {J_fd[j]!r} (tolerance {tol[j]:.2e}, smallest eigenvalue-modulus "
+        f"gap {gap:.3f}); J_ad={np.array2string(J, precision=6)} "
+        f"J_fd={np.array2string(J_fd, precision=6)}")
+
+
+def _away(lo, hi, excl):
+    """float in [lo, hi] with |x| >= excl"""
+    return st.floats(lo, hi, allow_nan=False, width=64).map(
+        lambda v: (excl if v >= 0 else -excl) if abs(v) < excl else v)
+
+
+@st.composite
+def gaussian_case(draw):
+    d = draw(st.sampled_from([2, 2, 3]))
+    bands = draw(st.permutations(R_BANDS[:d] if d == 3 else R_BANDS))[:d]
+    sq = [[draw(st.floats(lo, hi, allow_nan=False, width=64)), draw(_away(-1.5, 1.5, 0.2))]
+          for lo, hi in bands]
+    modes = draw(st.lists(st.integers(0, d - 1), min_size=1, max_size=d, unique=True))
+    disp = [[m, draw(st.floats(0.2, 0.8, allow_nan=False, width=64)),
+             draw(st.floats(-1.5, 1.5, allow_nan=False, width=64))] for m in sorted(modes)]
+    nbs = draw(st.integers(1, 2))
+    bs = []
+    for _ in range(nbs):
+        pair = draw(progs.ordered_modes(d, 2))
+        bs.append([pair[0], pair[1], draw(_away(-1.5, 1.5, 0.1)), draw(_away(-1.5, 1.5, 0.2))])
+    # 2 photons: the smallest output whose loop hafnian goes through `eig`.  3-photon
+    # outputs are NOT generated: on the pristine tree the rule's eps=1e-6 broadening
+    # already costs up to 4e-4 absolute / 4% relative there in ~2 of 25 states (d=2
+    # n=[1,2]: 3.5e-5; d=3 n=[1,1,1]: 4.4e-4), which cannot be bounded from the case
+    # description; with <= 2 photons the pristine error stayed <= 5e-7 in 40 states.
+    total = draw(st.sampled_from([2, 2, 2, 1]))
+    occ = [0] * d
+    for _ in range(total):
+        occ[draw(st.integers(0, d - 1))] += 1
+    return {"d": d, "sq": sq, "disp": disp, "bs": bs, "occ": occ}
+
+
+def gaussian_regress_cases(tier):
+    """The 2-mode state of the seeded-change demo (squeezed + displaced, complex angles)."""
+    return [{"d": 2, "sq": [[0.3, 0.4], [0.2, -0.3]], "disp": [[0, 0.4, 0.7], [1, 0.3, -0.2]],
+             "bs": [[0, 1, 0.6, 0.5]], "occ": [1, 1]}]
 
 
 # --------------------------------------------------------------------------------------
@@ -1121,6 +1285,12 @@ def parts(tier):
         ]
     if both or FW == "jax":
         ps += [
+            Part("jax_gaussian_regress", prop_gaussian, kind="enum",
+                 cases=lambda t: _mine(gaussian_regress_cases(t)),
+                 budget_s={"quick": 120, "thorough": 600}),
+            Part("jax_gaussian", prop_gaussian, strategy=gaussian_case(),
+                 examples=ex(16, 300), budget_s={"quick": 90, "thorough": 3000},
+                 shrink=False),
             Part("perm_nonsquare_tall", prop_perm_tall, kind="enum",
                  cases=lambda t: _mine(tall_cases(t)),
                  budget_s={"quick": 120, "thorough": 1200}),
